@@ -106,3 +106,34 @@ package checker
 //@   property C02
 //@   requires root != nil
 //@   may_panic
+
+// ---- checker list construction (C02): the recursion through type references ends ------------------------------------
+// appendTypeValidators -> buildList -> appendTypeValidators follows the types named by a node's type list; addedTypeNames
+// holds the names already expanded. Proved: a name is expanded only if it was not in the set, the set is created once (when
+// the list is created) and only grows, every name in it at a recursive call is a registered type (getType returned normally:
+// its contract), so `registered types (root schema + local map) - names in the set` decreases and is never negative
+// (finite-set axiom keys_subset2_len). getType itself recovers a failed lookup and retries in the other table; it returns
+// normally only for a name one of the two tables knows (the panic value of MustType is proved non-nil, so the handler
+// cannot mistake the panic for a normal return).
+
+//@ func getType
+//@   property C02
+//@   requires rootSchema != nil
+//@   ensures (n in rootSchema.types) || (n in ss)
+
+//@ pred addedOK(l *nodeCheckerListConstructor) := l.addedTypeNames != nil && len(l.addedTypeNames) >= 0 && (forall k string :: k in l.addedTypeNames ==> (k in l.rootSchema.types || k in l.types))
+
+//@ func (*nodeCheckerListConstructor).appendTypeValidators
+//@   property C02
+//@   requires l != nil && l.rootSchema != nil && (l.list != nil ==> addedOK(l))
+//@   may_panic
+//@   modifies l.addedTypeNames, l.list, elems(l.list), mapof(l.addedTypeNames)
+//@   decreases len(l.rootSchema.types) + len(l.types) - (l.list == nil ? 0 : len(l.addedTypeNames))
+//@   ensures l.list != nil && addedOK(l)
+//@   ensures old(l.list != nil) ==> l.addedTypeNames == old(l.addedTypeNames) && len(l.addedTypeNames) >= old(len(l.addedTypeNames))
+//@   ensures (old(l.list == nil) ==> fresh(l.addedTypeNames)) && (l.list.arr == old(l.list.arr) || fresh(l.list)) && len(l.addedTypeNames) >= 0
+//@   at call:appendTypeValidators use keys_subset2_len(l.addedTypeNames, l.rootSchema.types, l.types)
+//@   loop#1 invariant rangeindex >= -1 && l.list != nil && addedOK(l)
+//@   loop#1 decreases len(names) - rangeindex
+//@   loop#1 invariant old(l.list != nil) ==> l.addedTypeNames == old(l.addedTypeNames) && len(l.addedTypeNames) >= old(len(l.addedTypeNames))
+//@   loop#1 invariant (old(l.list == nil) ==> fresh(l.addedTypeNames)) && (l.list.arr == old(l.list.arr) || fresh(l.list)) && len(l.addedTypeNames) >= 0
